@@ -310,6 +310,12 @@ class PythonToIrCompiler:
                 f"Does not support {len(ra)} arguments",
             )
 
+        # The loop variable is an ordinary variable: it can be assigned to
+        # and keeps the value of the last iteration after the loop.
+        loop_var = self.get_variable(
+            statement.target, statement.target.id, ty=ir.i64
+        )
+
         entry_block = self.builder.block
         test_block = self.builder.new_block()
         body_block = self.builder.new_block()
@@ -323,13 +329,11 @@ class PythonToIrCompiler:
         i_phi.set_incoming(entry_block, i_init)
         self.emit(ir.CJump(i_phi, "<", n2, body_block, final_block))
 
-        # Publish looping variable:
-        self.local_map[statement.target.id] = Var(i_phi, False, ir.i64)
-
         # Body ('continue' must not skip the increment):
         increment_block = self.builder.new_block()
         self.enter_loop(increment_block, final_block)
         self.builder.set_block(body_block)
+        self.emit(ir.Store(i_phi, loop_var.value))
         self.gen_statement(statement.body)
         self.leave_loop()
         self.builder.emit_jump(increment_block)
